@@ -7,9 +7,12 @@
   parameters: `urlOk` (is the UTF-8 string a well-formed URL — `utils.is_url`) and `FsOracle`
   (what `os.path.isfile/isdir/exists` and `utils.real_size` answer when `Torrent.path` is set).
 
-  Arithmetic: `math.ceil(length / piece_length)` is modelled by exact integer division; Python
-  computes it in floats, which is exact for sizes and piece lengths below 2^53 (the driver
-  reports that bound as part of `hyp`).
+  Arithmetic: the expected piece count is `-(-int(size) // piece_length)` (integer arithmetic,
+  /repo commit bbc687b), i.e. the exact ceiling for numbers of any size.
+
+  Messages: `assert_type` and `validate` format offending values into the MetainfoError message;
+  `repr`/`str` of an integer of more than 4300 digits raises ValueError (CPython's int→str limit),
+  which escapes instead of the MetainfoError (finding D07j) — modelled by `raiseRepr`/`raiseInt`.
 -/
 import Torf.Model.Export
 namespace Torf.Validate
@@ -90,17 +93,46 @@ structure Rule where
   mustExist : Bool := true
   check : Option (PyVal → Bool) := none
 
+mutual
+/-- `repr(v)` raises ValueError: an `int` of more than 4300 digits at any depth (a real `float`
+    is below 2^1024 and always printable) -/
+def reprFails : PyVal → Bool
+  | .int i => intTooBig i
+  | .list l => reprFailsList l
+  | .tuple l => reprFailsList l
+  | .dict kvs => reprFailsKvs kvs
+  | _ => false
+def reprFailsList : List PyVal → Bool
+  | [] => false
+  | v :: r => reprFails v || reprFailsList r
+def reprFailsKvs : List (PyVal × PyVal) → Bool
+  | [] => false
+  | (k, v) :: r => reprFails k || reprFails v || reprFailsKvs r
+end
+
+/-- `raise MetainfoError(f'… {value!r}')`: building the message can itself raise -/
+def raiseRepr (v : PyVal) : Except ErrKind α :=
+  if reprFails v then throw (.internal "ValueError") else throw .metainfo
+
+/-- `raise MetainfoError(f'… {n} …')` for an integer `n` -/
+def raiseInt (n : Int) : Except ErrKind α :=
+  if intTooBig n then throw (.internal "ValueError") else throw .metainfo
+
+/-- the value satisfies the rule: `isinstance(value, exp_types)` and `check(value)` -/
+def passes (r : Rule) (v : PyVal) : Bool :=
+  r.types v && (match r.check with | some c => c v | none => true)
+
+/-- the `elif not isinstance(…)` / `elif check is not None and not check(…)` branches -/
+def checkVal (r : Rule) (v : PyVal) : Except ErrKind Unit :=
+  if passes r v then pure () else raiseRepr v
+
 /-- the part of `assert_type` after the key chain has been walked: `key` is looked up in `obj` -/
 def assertFinal (obj : PyVal) (key : Key) (r : Rule) : Except ErrKind Unit := do
   if !(← keyExists key obj) then
     if r.mustExist then throw .metainfo else pure ()
   else
     match getItem obj key with
-    | .val v =>
-      if !r.types v then throw .metainfo
-      else match r.check with
-        | some c => if !c v then throw .metainfo else pure ()
-        | none => pure ()
+    | .val v => checkVal r v
     | .missing => throw (.internal "KeyError")     -- cannot happen after `keyExists`
     | .typeError => throw (.internal "TypeError")
 
@@ -184,7 +216,8 @@ def ensureInfo (md : Items) : Items :=
   | some _ => md
   | none => md ++ [(.str "info", .dict [])]
 
-def ceilDiv (a b : Nat) : Nat := (a + b - 1) / b
+/-- `-(-size // piece_length)`: Python's `//` is floor division -/
+def expPieces (size pieceLength : Int) : Int := -(Int.fdiv (-size) pieceLength)
 
 /-- `obj[key]` outside any try/except -/
 def getE (obj : PyVal) (k : Key) : Except ErrKind PyVal :=
@@ -228,6 +261,29 @@ def filesNotMapping (md0 : Items) : Bool :=
   | some (.dict info) => (match PyVal.lookupStr "files" info with | some (.dict _) => false | _ => true)
   | _ => true
 
+mutual
+/-- sum of the magnitudes of all numbers in a value (`int`s incl. `bool`s and truncated finite
+    `float`s, keys included) -/
+def sumAbs : PyVal → Nat
+  | .int i => i.natAbs
+  | .bool b => if b then 1 else 0
+  | .float (.fin t _ _) => t.natAbs
+  | .list l => sumAbsList l
+  | .tuple l => sumAbsList l
+  | .dict kvs => sumAbsKvs kvs
+  | _ => 0
+def sumAbsList : List PyVal → Nat
+  | [] => 0
+  | v :: r => sumAbs v + sumAbsList r
+def sumAbsKvs : List (PyVal × PyVal) → Nat
+  | [] => 0
+  | (k, v) :: r => sumAbs k + sumAbs v + sumAbsKvs r
+end
+
+/-- no MetainfoError message can hit the int→str limit (the complement is finding D07j): the
+    magnitudes of all numbers in the metainfo add up to a number of at most 4300 digits -/
+def numbersSmall (md0 : Items) : Bool := decide (sumAbs (.dict md0) < 10 ^ maxStrDigits)
+
 def entryJoinable : PyVal → Bool
   | .dict e =>
     (match PyVal.lookupStr "path" e with
@@ -245,6 +301,12 @@ def pathsJoinable (md0 : Items) : Bool :=
      | some (.tuple l) => l.all entryJoinable
      | _ => true)
   | _ => true
+
+/-- outside the classes of the open findings D07f (`files` is a mapping; with a content path, a
+    `path` that `os.path.join` rejects) and D07j (numbers beyond the int→str limit): the
+    hypothesis of `C07_validate_only_metainfo_error`, evaluated by the driver as `hypThm` -/
+def outsideD07fD07j (fs : FsOracle) (md0 : Items) : Bool :=
+  filesNotMapping md0 && (!fs.hasPath || pathsJoinable md0) && numbersSmall md0
 
 section
 variable (urlOk : Bytes → Bool) (fs : FsOracle)
@@ -284,14 +346,11 @@ def checkFileOnDisk (i : Nat) (fileinfo : PyVal) : Except ErrKind Unit := do
   if !fact.isFile then throw .metainfo
   let l ← getE fileinfo (.s "length")
   match numVal? l with
-  | some n => if (fact.size : Int) ≠ n then throw .metainfo
+  | some n => if (fact.size : Int) ≠ n then raiseRepr l   -- message formats `fileinfo['length']`
   | none => throw (.internal "TypeError")
 
-/-- `Torrent.validate()` -/
-def validate (md0 : Items) : Except ErrKind Unit := do
-  let items := ensureInfo md0
-  let md := PyVal.dict items
-  let info ← getE md (.s "info")
+/-- the rules shared by single-file and multi-file torrents -/
+def checkCommon (md : PyVal) : Except ErrKind Unit := do
   assertType md [.s "info"] { types := PyVal.isDict }
   assertType md [.s "info", .s "name"] { types := isStrOrBytes }
   assertType md [.s "info", .s "piece length"] { types := PyVal.isInt, check := some isDivisibleBy16KiB }
@@ -300,40 +359,61 @@ def validate (md0 : Items) : Except ErrKind Unit := do
   assertType md [.s "creation date"] { types := isIntOrDatetime, mustExist := false }
   assertType md [.s "announce"] { types := PyVal.isStr, mustExist := false, check := some (isUrl urlOk) }
   assertType md [.s "announce-list"] { types := PyVal.isIterable, mustExist := false }
+
+/-- `for i,_ in enumerate(md.get('announce-list', ())): …` -/
+def checkAnnounceList (md : PyVal) (items : Items) : Except ErrKind Unit :=
   match PyVal.lookupStr "announce-list" items with          -- md.get('announce-list', ())
   | none => pure ()
-  | some al =>
+  | some al => do
     let n := (← iterE al).length
     (List.range n).forM (checkTier urlOk md)
+
+/-- the `elif 'length' in info:` branch; `plen = len(info['pieces'])` -/
+def checkSingle (md info : PyVal) (plen : Nat) : Except ErrKind Unit := do
+  assertType md [.s "info", .s "length"] { types := isIntOrFloat, check := some isFileLength }
+  assertType md [.s "info", .s "md5sum"] { types := PyVal.isStr, mustExist := false, check := some isMd5sum }
+  let pieceCount := plen / 20
+  let pl := intVal (← getE info (.s "piece length"))
+  let l ← getE info (.s "length")
+  match numVal? l with                                       -- int(info['length'])
+  | none => throw (.internal "TypeError")
+  | some len =>
+    let exp := expPieces len pl
+    -- the message formats both counts; `piece_count <= sys.maxsize` is always printable
+    if (pieceCount : Int) ≠ exp then raiseInt exp
+    if fs.hasPath then
+      if !fs.rootIsFile then throw .metainfo
+      if (fs.rootSize : Int) ≠ len then raiseRepr l          -- message formats `info['length']`
+
+/-- the `elif 'files' in info:` branch -/
+def checkMulti (md info : PyVal) (plen : Nat) : Except ErrKind Unit := do
+  assertType md [.s "info", .s "files"] { types := PyVal.isIterable }
+  let files ← iterE (← getE info (.s "files"))
+  forEnum (checkFile md) 0 files
+  let pieceCount := plen / 20
+  let total ← sumLengths files 0
+  let pl := intVal (← getE info (.s "piece length"))
+  let exp := expPieces total pl
+  if (pieceCount : Int) ≠ exp then raiseInt exp
+  if fs.hasPath then
+    if !fs.rootIsDir then throw .metainfo
+    forEnum (checkFileOnDisk fs) 0 files
+
+/-- `Torrent.validate()` -/
+def validate (md0 : Items) : Except ErrKind Unit := do
+  let items := ensureInfo md0
+  let md := PyVal.dict items
+  let info ← getE md (.s "info")
+  checkCommon urlOk md
+  checkAnnounceList urlOk md items
   let plen ← lenE (← getE info (.s "pieces"))
   let hasLength ← inE (.s "length") info                      -- `'length' in info`
   let hasFiles ← inE (.s "files") info
   if plen == 0 then throw .metainfo
   else if plen % 20 != 0 then throw .metainfo
   else if hasLength && hasFiles then throw .metainfo
-  else if hasLength then
-    assertType md [.s "info", .s "length"] { types := isIntOrFloat, check := some isFileLength }
-    assertType md [.s "info", .s "md5sum"] { types := PyVal.isStr, mustExist := false, check := some isMd5sum }
-    let pieceCount := plen / 20
-    let pl := intVal (← getE info (.s "piece length"))
-    match numVal? (← getE info (.s "length")) with
-    | none => throw (.internal "TypeError")
-    | some len =>
-      if (pieceCount : Int) ≠ ceilDiv len.toNat pl.toNat then throw .metainfo
-      if fs.hasPath then
-        if !fs.rootIsFile then throw .metainfo
-        if (fs.rootSize : Int) ≠ len then throw .metainfo
-  else if hasFiles then
-    assertType md [.s "info", .s "files"] { types := PyVal.isIterable }
-    let files ← iterE (← getE info (.s "files"))
-    forEnum (checkFile md) 0 files
-    let pieceCount := plen / 20
-    let total ← sumLengths files 0
-    let pl := intVal (← getE info (.s "piece length"))
-    if (pieceCount : Int) ≠ ceilDiv total.toNat pl.toNat then throw .metainfo
-    if fs.hasPath then
-      if !fs.rootIsDir then throw .metainfo
-      forEnum (checkFileOnDisk fs) 0 files
+  else if hasLength then checkSingle fs md info plen
+  else if hasFiles then checkMulti fs md info plen
   else throw .metainfo
 
 /-- `Torrent.convert()` + `bencode.encode` = the body of `dump(validate=False)` -/
